@@ -9,6 +9,14 @@ TB_COMMON = [
     "Go runtime and standard library; hslam/{code,buffer,scheduler,socket,funcs,netpoll} as used",
 ]
 
+CONN_RULE = ("scripted scenarios against the real *rpc.Conn over a gated fake socket.Messages (corpus of adversarial orders + PRNG scripts of 8-160 actions: "
+             "calls of all five forms, write verdicts, responses/duplicates/unknown-seq/undecodable frames, EOF, read error, Close, cancellation, held body decodes), "
+             "in the four modes direct-IO x pipelining and four header encoders; after every action the quiescent state of the implementation is compared with the Lean automaton's; "
+             "distinct = (header, mode, sequence of action kinds); every scenario is non-trivial (>= 4 actions, at least one call)")
+CONN_MODELLED = ("conn.go send/recv/read/finishCall/complete/closeQueue/Close and the five call forms are modelled as the automaton K (Model/ConnSM.lean) at the granularity of "
+                 "conn.mutex critical sections and gate crossings; the lock-free code between two gates is assumed to behave as the model's step says (sampled by the state correspondence, not proved); "
+                 "streams are not part of K; hslam/scheduler is modelled as a FIFO single worker (closeQueue drains it in order)")
+
 PROPS = {
     "C07": {
         "components": [{"name": "wire", "driver": "wire", "streams": ["c07"]}],
@@ -20,6 +28,11 @@ PROPS = {
                     "and tied by regenerated constants + byte-exact differential; the json header is not modelled in Lean (round-trip, keys and UTF-8 handling are monitored on the implementation only)",
         "assumptions": ["sequence numbers < 2^64, field lengths < 2^63 (Go types)", "json header: method/error are valid UTF-8 (as the property states)"],
     },
+    "C02": {
+        "components": [{"name": "conn", "driver": "conn", "streams": ["k"]}],
+        "rule": CONN_RULE, "trusted_base": TB_COMMON, "modelled": CONN_MODELLED,
+        "assumptions": ["Done channels have room for the calls they carry", "fewer than 2^64 calls per connection"],
+    },
     "C08": {
         "components": [{"name": "wire", "driver": "wire", "streams": ["c08"]}],
         "rule": "malformed stream: every truncation (≤48 cut points per frame) and single-byte substitutions {00,01,08,7f,80,ff,random} in the first 12 and 4 random positions of valid frames, "
@@ -29,4 +42,24 @@ PROPS = {
         "modelled": "header decoders modelled with Go's slice semantics (index vs len, re-slice vs cap) incl. panics as values (Model/Wire.lean)",
         "assumptions": ["read buffers shorter than 2^63 bytes"],
     },
+}
+
+
+NOT_APPLICABLE = {}
+
+KERNEL_NOTE = "Trusted: Lean kernel (propext, Classical.choice, Quot.sound only), the extractor, the harness (gates, quiescence detection, monitors). "
+
+MANIFEST_TEXT = {
+    "C07": {
+        "text": "Lean 4 theorems over the wire model: for every header value, scratch buffer and read-buffer tail the pb/default and code encoders emit exactly the documented bytes and the decoders return the original fields; upgrade flags round-trip and are injective. The model's constants are regenerated from /repo on every run and the model is compared byte-for-byte with the real encoders/decoders on generated values.",
+        "note": KERNEL_NOTE + "The json header is not modelled: its round-trip, keys and UTF-8 handling are monitored on the implementation only. Sequence numbers < 2^64, lengths < 2^63.",
+        "technique": "Lean 4 proof (round-trip, format, scratch-independence) + regenerated constants + byte-exact differential correspondence"},
+    "C08": {
+        "text": "Lean 4 theorems: the four header decoders never panic and never read past the frame, for every byte string and every content of the read buffer behind it; every upgrade byte decodes to in-range flags. Go slice semantics (index vs len, re-slice vs cap) and panics are values of the model; model and real decoders are compared on a malformed-frame stream.",
+        "note": KERNEL_NOTE + "Dispatch and teardown parts of C08 are added with the server automaton.",
+        "technique": "Lean 4 proof (totality, non-interference of stale buffer bytes) + differential correspondence on malformed frames"},
+    "C02": {
+        "text": "Lean 4 theorems over the client-connection automaton K (every interleaving of sender, reader, decode and completion threads; any write verdicts, frames, EOF, errors, Close): a call is owned by exactly one path at any time, is signalled at most once and its outcome is written at most once. K is compared state-by-state with the real Conn under scripted schedules (gated fake transport) after every action, in all four I/O modes.",
+        "note": KERNEL_NOTE + "Code between two gates is assumed to behave as one model step (sampled, not proved). Liveness half ('at least once') is a quiescence theorem + measured deadlines.",
+        "technique": "Lean 4 proof (ownership invariant by induction over all traces) + state correspondence under scripted schedules + monitors"},
 }
